@@ -207,7 +207,12 @@ def _hist(case, box):
                 if exc is not None:
                     viols.append(viol('hist:fetch-raised:%s' % type(exc).__name__, 'fetch of a saved recording raised after history %s' % [HLETTERS[x] for x in case['h'][:step]], 'value', repr(exc)))
                 elif op == 'get':
-                    compare(viols, 'hist', case['cfg'], got, rid, ref[i][0], ref[i][1], f.get_recording_metadata(rid))
+                    try:
+                        alone = f.get_recording_metadata(rid)
+                    except Exception as e:
+                        alone = None
+                        viols.append(viol('hist:metadata-alone-raised:%s' % type(e).__name__, 'metadata of a saved recording cannot be fetched on its own', 'metadata', repr(e)))
+                    compare(viols, 'hist', case['cfg'], got, rid, ref[i][0], ref[i][1], alone if alone is not None else got.get_metadata())
                     if hasattr(got, 'get_all_keys'):   # what a caller does with ITS copy must not reach what later fetches see
                         got['k'] = 'TAMPERED'
                         got.get_metadata()['m'] = 'TAMPERED'
